@@ -64,7 +64,7 @@ def cases(tier: str, seed: int) -> list[dict]:
         for et in gm.ET_2D + gm.ET_3D:
             out.append({"sc": "motion", "et": et})
             out.append({"sc": "normals", "et": et})
-            for mc in ["gmsh", "affine"] + (["general"] if et[:4] in ("QUAD", "HEXA") else []):
+            for mc in ["gmsh", "affine"] + (["general"] if et[:4] in ("QUAD", "HEXA") else []) + (["partly-distorted"] if et in ("QUAD4", "HEXA8") else []) + (["warped-faces"] if et == "HEXA8" else []):
                 out.append({"sc": "locate", "et": et, "mesh": mc})
         for et in gm.ET_1D:
             out.append({"sc": "motion", "et": et})
@@ -555,7 +555,30 @@ def run_locate(case, ctx, rng):
     key = f"C08/locate/{shape}/{mc}"
     ctx.default_key = key
     with ctx.monitored("no-exception", key + "/raised"):
-        mesh, dim, measure, cen, info = make_mesh(rng, et, mc)
+        if mc in ("partly-distorted", "warped-faces"):
+            # a structured mesh of parallelogram elements in which a few interior vertices are moved: elements with a closed-form
+            # inverse map and elements needing the iterative one share edges, faces and nodes in ONE group
+            with quiet():
+                dim = 2 if shape == "QUAD" else 3
+                Lx, Ly, h = float(rng.uniform(1, 2)), float(rng.uniform(1, 2)), float(rng.uniform(0.6, 1.2))
+                rect = np.array([[0, 0], [Lx, 0], [Lx, Ly], [0, Ly]], float)
+                ms = Lx / 4
+                mesh = gm.mesh2d(rect, et, ms, organised=True) if dim == 2 else gm.mesh3d(rect, et, h, 2, ms, organised=True)
+                Xc = mesh.coord.copy()
+                inner = np.where((Xc[:, 0] > 1e-9) & (Xc[:, 0] < Lx - 1e-9) & (Xc[:, 1] > 1e-9) & (Xc[:, 1] < Ly - 1e-9))[0]
+                if mc == "warped-faces":
+                    # every chosen vertex moves on its own: the faces of the hexahedra around it are no longer planar
+                    moved = rng.choice(inner, max(1, len(inner) // 3), replace=False)
+                    Xc[moved, :2] += rng.uniform(-0.2, 0.2, (len(moved), 2)) * ms
+                else:
+                    # whole columns of vertices (same x, y) move together: general quadrangles extruded, all faces stay planar
+                    cols = np.unique(np.round(Xc[inner, :2], 9), axis=0)
+                    for c_ in cols[rng.choice(len(cols), max(1, len(cols) // 3), replace=False)]:
+                        col = np.where(np.abs(Xc[:, :2] - c_).max(1) < 1e-8)[0]
+                        Xc[col, :2] += rng.uniform(-0.2, 0.2, 2) * ms
+                mesh = gm.rebuild(mesh, coord=Xc)
+        else:
+            mesh, dim, measure, cen, info = make_mesh(rng, et, mc)
     order = gm.ORDER[et]
     X = mesh.coord
     tensor = shape in ("QUAD", "HEXA")
@@ -632,6 +655,17 @@ def run_locate(case, ctx, rng):
         want = f(P)
         # general quads / hexas go through scipy.optimize.least_squares with its default 1e-8 tolerances
         tol = 1e-6 if tensor else 1e-9
+        if mc == "warped-faces":
+            # two questions, two keys: is every point (built inside an element, or on its boundary) found in some element at all,
+            # and is the field right at the points that were found
+            with quiet():
+                found = np.zeros(len(P), bool)
+                found[np.asarray(g.Get_Mapping(P, needCoordinates=False)[0], int)] = True
+            ctx.require("location-found", bool(found.all()), ckey + "/found", n=len(P), not_found=int((~found).sum()))
+            if found.any():
+                ctx.check("location-values", relerr(np.asarray(got).reshape(len(P), -1)[found], np.asarray(want).reshape(len(P), -1)[found], scale=np.abs(vals).max()), tol, ckey + "/values-where-found", n=int(found.sum()), et=et)
+            nontrivial = True
+            continue
         ctx.check("location-values", relerr(got, want, scale=np.abs(vals).max()), tol, ckey + "/values", n=len(P), degree=deg, et=et)
         nontrivial = True
     ctx.describe(f"locate/{et}/{mc}", nontrivial and mesh.Ne >= 2 and deg >= 1, et=et, mesh=mc, degree=deg, Ne=mesh.Ne)
